@@ -281,7 +281,8 @@ Theorem packet_recv_as_modelled :
   RECV_SKELETON = modelled_skeleton /\
   GET_EPOCH_OK = true /\ DISCARD_EPOCH_OK = true /\ DISCARD_SPACE_CLEARS_ACK_AT = true /\ CLOSE_OK = true /\ SPIN_FN_OK = true /\
   DISCARD_SITES = [(1, 0); (2, 0); (3, 9); (4, 2); (5, 2)] /\ KEY_UPDATE_SITES = [6] /\
-  RESERVED_MASK_SHORT = 24 /\ RESERVED_MASK_LONG = 12 /\ PROTOCOL_VIOLATION_CODE = 10 /\ SPIN_BIT = 32.
+  RESERVED_MASK_SHORT = M_RESERVED_SHORT /\ RESERVED_MASK_LONG = M_RESERVED_LONG /\ PROTOCOL_VIOLATION_CODE = M_PROTOCOL_VIOLATION /\
+  SPIN_BIT = M_SPIN_BIT /\ M_RESERVED_SHORT = 24 /\ M_RESERVED_LONG = 12 /\ M_PROTOCOL_VIOLATION = 10 /\ M_SPIN_BIT = 32.
 Proof. exact packet_recv_as_modelled_lemma. Qed.
 Print Assumptions packet_recv_as_modelled.
 
@@ -325,12 +326,27 @@ Theorem discarded_epoch_packet_dropped_conn : forall frames idle_timeout ack_del
 Proof. exact discarded_epoch_packet_dropped. Qed.
 Print Assumptions discarded_epoch_packet_dropped_conn.
 
+(* where the Initial epoch goes: a server that opens a Handshake packet has no Initial keys left when receive_datagram returns ... *)
+Theorem server_handshake_packet_discards_initial_conn : forall frames idle_timeout ack_delay c r now p',
+  c_is_client c = false -> c_close c = None -> decrypt c r = Opened p' -> reserved_set r = false -> r_epoch r = EHandshake ->
+  sp_discarded (c_sp_initial c) = false ->
+  has_keys (recv_packet frames idle_timeout ack_delay c r now) EInitial = false /\
+  sp_discarded (c_sp_initial (recv_packet frames idle_timeout ack_delay c r now)) = true.
+Proof. exact server_handshake_packet_discards_initial. Qed.
+Print Assumptions server_handshake_packet_discards_initial_conn.
+
+(* ... and a client once it has sent a Handshake packet (datagrams_to_send) *)
+Theorem client_handshake_sent_discards_initial : forall c, c_is_client c = true -> sp_discarded (c_sp_initial c) = false ->
+  has_keys (on_handshake_sent c) EInitial = false /\ sp_discarded (c_sp_initial (on_handshake_sent c)) = true.
+Proof. exact on_handshake_sent_client. Qed.
+Print Assumptions client_handshake_sent_discards_initial.
+
 (* the reserved bits are examined only after the packet has authenticated: PROTOCOL_VIOLATION and nothing else -- nothing delivered,
    no packet number recorded, no epoch discarded, peer CID, spin bit and idle timer untouched -- except that a remote key update
    has already been applied *)
 Theorem reserved_bits_checked_after_decrypt_conn : forall frames idle_timeout ack_delay c r now p',
   c_close c = None -> decrypt c r = Opened p' -> reserved_set r = true ->
-  recv_packet frames idle_timeout ack_delay c r now = set_close (set_pair c p') PROTOCOL_VIOLATION_CODE /\
+  recv_packet frames idle_timeout ack_delay c r now = set_close (set_pair c p') M_PROTOCOL_VIOLATION /\
   c_close (recv_packet frames idle_timeout ack_delay c r now) = Some 10.
 Proof. exact reserved_bits_checked_after_decrypt. Qed.
 Print Assumptions reserved_bits_checked_after_decrypt_conn.
